@@ -49,13 +49,15 @@ def make_target(lab):
         rtok = ann[0] if len(ann) == 1 else -1
         if tok is None:
             tok = rtok
+        if not ann and not [k for k in cc.annotations if k.startswith("H")]:
+            rtok = tok          # a request without annotations: nothing to see is what it must see
+        elif not ann:
+            rtok = -1           # ... but it sees what somebody else left behind
         conn = cc.client
         c = lab.conn_of_sock(conn.sock) if conn is not None else 0
-        try:
-            if conn is not None and not conn.sock.closed and cc.client_sock_addr != conn.sock.getpeername():
-                c = -1
-        except OSError:
-            pass
+        # the peer address the method can read is that of its own connection (or unknown), never somebody else's
+        if conn is not None and cc.client_sock_addr is not None and tuple(cc.client_sock_addr) != tuple(getattr(conn.sock, "raddr", cc.client_sock_addr)):
+            c = -1
         corr = cc.correlation_id.int if cc.correlation_id is not None and cc.correlation_id.int < 100000 else -1
         lab.log.append({"e": "Exec", "tok": tok, "c": c, "seq": cc.seq, "reqann": rtok, "corr": corr, "ser": cc.serializer_id,
                         "oneway": bool(cc.msg_flags & protocol.FLAGS_ONEWAY)})
@@ -80,6 +82,15 @@ def make_target(lab):
         def plain(self, tok):
             snap(tok)
             return tok
+
+        def mutate_reqann(self, tok):
+            snap(tok)
+            cc.annotations["H%03d" % tok] = b"hop"       # e.g. a hop marker added before calling on
+            return tok
+
+        @P.oneway
+        def oplain(self, tok):
+            snap(tok)
 
         def boom(self, tok):
             snap(tok)
@@ -164,8 +175,17 @@ def request_bytes(kind, tok, seq, ser):
             s = serializers.serializers[ser]
             return bytes(protocol.SendingMessage(protocol.MSG_INVOKE, flags, seq, s.serializer_id,
                                                  s.dumpsCall("target", m, list(args), {}), annotations=ann).data)
+        if kind == "mutate_reqann":
+            if tok % 2:
+                ann.clear()         # every other time the request itself carries no annotations
+            return inv(kind, [tok])
         if kind in ("setann", "setann_inplace", "setann_raise", "plain", "slow_setann", "slow_inplace", "slow_plain"):
             return inv(kind, [tok])
+        if kind == "plain_noann":
+            ann.clear()
+            return inv("plain", [tok])
+        if kind == "oneway_then_reset":
+            return inv("oplain", [tok], protocol.FLAGS_ONEWAY)
         if kind == "oneway_slow":
             return inv("oslow_setann", [tok], protocol.FLAGS_ONEWAY)
         if kind == "oneway_slow_inplace":
@@ -266,6 +286,14 @@ def run_scripts(scripts, mode, seed, concurrent=False):
                     lab.log.append({"e": "Req", "c": rc.cid, "tok": tok, "seq": seqs[c], "sets": kind in SETS, "kind": kind, "ser": ser_id,
                                     "oneway": kind.startswith("oneway"), "corr": tok if has_corr(tok) else -1})
                     rc.send(request_bytes(kind, tok, seqs[c], ser))
+                    if kind == "oneway_then_reset":
+                        # the request is in the daemon's buffer, then the connection is reset: the bytes stay readable, the peer is gone
+                        rc.sock.peer.reset_after_drain = True
+                        sc.quiesce()
+                        collect(c)
+                        clients.pop(c).close()
+                        sc.quiesce()
+                        continue
                     nxt = steps[si + 1] if si + 1 < len(steps) else None
                     if concurrent and pending is None and nxt is not None and nxt["c"] != c and nxt["kind"] != "reconnect" \
                             and nxt["c"] in clients and not clients[nxt["c"]].server_closed():
@@ -324,9 +352,10 @@ def run_proxy_scripts(scripts):
         sc = S.CUR
         lab = L.Lab(servertype="multiplex")
         lab.daemon.register(make_target(lab)(), "target")
+        lab.handshake_annotation = True
         P = lab.P
         cc = lab.current_context
-        for script, ser in scripts:
+        for script_no, (script, ser) in enumerate(scripts):
             lab.log = []
             sc.set_budget(6000)
             proxies = {}
@@ -335,12 +364,18 @@ def run_proxy_scripts(scripts):
             try:
                 for step in script:
                     c, kind = step["c"], step["kind"]
-                    if kind in ("reconnect", "getattr_setann", "stream_setann", "unknown_member", "setann_inplace", "oneway_inplace", "ping"):
+                    if kind == "reconnect":
+                        if c in proxies:
+                            proxies[c]._pyroRelease()       # the next call connects again by itself (the proxy knows the metadata already)
+                        continue
+                    if kind in ("getattr_setann", "stream_setann", "unknown_member", "setann_inplace", "oneway_inplace", "ping",
+                                "plain_noann", "mutate_reqann", "oneway_then_reset"):
                         continue
                     if c not in proxies:
                         proxies[c] = P.Proxy(lab.daemon.uriFor("target"))
                         proxies[c]._pyroSerializer = ser
-                        proxies[c]._pyroBind()
+                        if script_no % 2:
+                            proxies[c]._pyroBind()          # otherwise the first call connects by itself
                     p = proxies[c]
                     tok += 1
                     cc.annotations = {"R%03d" % tok: b"r"}
@@ -368,7 +403,7 @@ def run_proxy_scripts(scripts):
                         raise
                     except Exception:
                         pass
-                    tr.append({"e": "Saw", "tok": tok, "anns": tokens_of(cc.response_annotations)})
+                    tr.append({"e": "Saw", "tok": tok, "anns": tokens_of(cc.response_annotations), "hs": "HSHK" in cc.response_annotations})
             except S.Hang:
                 tr.append({"e": "Hang"})
             cc.annotations = {}
@@ -398,7 +433,7 @@ def run(ctx):
     s1 = tlc.gen(ctx, "Gen_Ctx", cfg_text=GEN_CFG % 1)
     s2 = tlc.gen(ctx, "Gen_Ctx", cfg_text=GEN_CFG % 2)
     s3 = tlc.gen(ctx, "Gen_Ctx", cfg_text=GEN_CFG % 3)
-    if len(s2) != 28 * 28 or len(s3) != 28 ** 3:
+    if len(s2) != 34 * 34 or len(s3) != 34 ** 3:
         raise util.MachineryError("history generation incomplete")
     rng = random.Random(ctx.seed + 12)
     rng.shuffle(s3)
